@@ -127,6 +127,28 @@ pub fn check_all(h: &History, level: u8, obs: &mut Obs) -> Vec<(Violation, Fault
         }
     };
     // (i) every write call x ErrorKind
+    // very long recordings (many thousand samples = many thousand write calls): a thin slice
+    // around the first calls, the last calls and a few non-fatal schedules
+    if r.writes > 3000 {
+        let mut ks: Vec<usize> = vec![0, 1, 2, 3, r.writes / 2, r.writes - 2, r.writes - 1];
+        ks.dedup();
+        for k in ks {
+            for kind in [0usize, 6] {
+                let f = Fault::FailWrite { k, kind };
+                push(check_one(h, &f, &r, obs), &f, &mut out);
+                obs.count("fault_points:fail-write(call x kind)", 1);
+            }
+            let f = Fault::ZeroAt { k };
+            push(check_one(h, &f, &r, obs), &f, &mut out);
+        }
+        for s in 0..8u64 {
+            let f = Fault::Schedule { seed: crate::util::mix(h.hash(), s), max_chunk: [1usize << 16, 4096, 64, 7][s as usize % 4], interrupt_pct: [40u8, 10][s as usize % 2] };
+            push(check_one(h, &f, &r, obs), &f, &mut out);
+            obs.count("fault_points:schedules", 1);
+        }
+        obs.count("long_histories", 1);
+        return out;
+    }
     // under Miri (VH_SMALL) one faulted run costs about a second: a thin but complete slice
     // (every write call, ~40 byte offsets incl. all buffer boundaries of the first writes)
     let small = std::env::var("VH_SMALL").is_ok();
